@@ -1,14 +1,14 @@
 PROPS["C16"] = dict(
     jobs=[
-        job("direct", "c16_btdmp", cases={Q: 1500, T: 60000}, mode="direct"),
-        job("facade", "c16_btdmp", cases={Q: 60, T: 2500}, mode="facade"),
+        job("direct", "c16_btdmp", cases={Q: 1500, T: 45000}, mode="direct"),
+        job("facade", "c16_btdmp", cases={Q: 16, T: 480}, mode="facade"),
     ],
     rule="direct: random histories (80 ops + final drain) over two real Btdmp objects, each on its own CoreTiming, period fixed "
          "per history in {1,2,3,7,4096,65535,random}: send bursts of unique non-zero ids (incl. fill-to-16 and overflow), flush, "
          "enable/disable, single cycles, CoreTiming::Skip(max) with max in {0,1,horizon,horizon-1,<=horizon,>horizon} (and "
          "frame-aligned distances when there is no horizon); instance A skips, twin B replays each skip as k single cycles; the "
          "independent model is compared with B after every op (flags, frame time+content, interrupt time, horizon safety). "
-         "facade: 60-op histories through Teakra::MMIOWrite/MMIORead (0x2BE/0x2C6/0x2CA/0x2C2/0x200/0x202), Teakra::Run and "
+         "facade: 240-op histories (a fresh Teakra each) through Teakra::MMIOWrite/MMIORead (0x2BE/0x2C6/0x2CA/0x2C2/0x200/0x202), Teakra::Run and "
          "SetAudioCallback while the core executes an idle loop (Skip path) or a nop loop (Tick path). distinct_nontrivial = "
          "distinct (op, period class, queue-fill class 0/1/2/odd/even/15/16, enabled?, skip-distance class, frame/irq seen?) "
          "keys executed and compared",
@@ -16,12 +16,12 @@ PROPS["C16"] = dict(
         Q: {"frames": 100000, "frames_one_word_padded": 2000, "frames_silent": 5000, "empty_irqs": 10000, "sends_dropped": 5000,
             "reached_full": 2000, "flush_nonempty": 2000, "skip_kpos": 50000, "skip_k0": 5000, "skip_at_horizon": 10000,
             "skip_over_frames": 10000, "horizon_finite": 100000, "fac_frames": 5000, "fac_empty_irqs": 500,
-            "fac_sends_dropped": 500, "histories_facade_idle_loop": 100, "histories_facade_nop_loop": 100},
+            "fac_sends_dropped": 500, "histories_facade_idle_loop": 60, "histories_facade_nop_loop": 60},
         T: {"frames": 4000000, "frames_one_word_padded": 80000, "frames_silent": 200000, "empty_irqs": 400000,
             "sends_dropped": 200000, "reached_full": 80000, "flush_nonempty": 80000, "skip_kpos": 2000000, "skip_k0": 200000,
             "skip_at_horizon": 400000, "skip_over_frames": 400000, "horizon_finite": 4000000, "fac_frames": 200000,
-            "fac_empty_irqs": 20000, "fac_sends_dropped": 20000, "histories_facade_idle_loop": 4000,
-            "histories_facade_nop_loop": 4000},
+            "fac_empty_irqs": 20000, "fac_sends_dropped": 20000, "histories_facade_idle_loop": 2000,
+            "histories_facade_nop_loop": 2000},
     },
     ready=True,
     technique="runtime monitoring: lock-step reference model + Skip-vs-Tick twin execution of the real Btdmp/CoreTiming, and the "
@@ -29,7 +29,7 @@ PROPS["C16"] = dict(
     level_text="Exploration: seeded random operation histories on the real Btdmp objects and on the Teakra facade, every step "
                "compared against an independent model and a single-stepped twin; decides the property only for the histories "
                "produced (counts in evidence).",
-    level_note="Trusts the harness model of the statement/btdmp.md; histories are 80 (direct) / 60 (facade) ops; hidden queue "
+    level_note="Trusts the harness model of the statement/btdmp.md; histories are 80 (direct) / 240 (facade) ops; hidden queue "
                "contents are observed through the frames they later produce (final drain) and through the reported horizon.",
     assumptions=["the period is set once before the history starts and is >= 1 (period 0 and mid-run changes are outside the statement); "
                  "through the facade it is the constant 4096",
